@@ -44,6 +44,22 @@ for sw in (False, True):
 # a rotation payload whose inner bundle carries a foreign id, presented twice: the second use is a replay
 beh("f10_replay_inner_id", ["C10"], [A("k1", "e1", "n1", "s1"), ROT("k1", "k1", "cur", "k2", "e2", "n2", iid=True), ROT("k1", "k1", "cur", "k2", "e2", "n2", iid=True), ROT("k1", "k1", "cur", "k2", "e2", "n2"),
                                       ROT("k2", "k2", "cur", "k3", "e1", "n1", iid=True), ROT("k2", "k2", "cur", "k3", "e1", "n1", iid=True)])
+# an intermediate that re-wrapped a registration before is removed by the operator and goes on re-wrapping with the keys it holds
+for sw in (False, True):
+    beh("f01_rewrap_removed" + ("w" if sw else ""), ["C01"], [A("k3", "e1", "n1"), F("k1", "e1", "n1", rby="k3", rwith="k3", rk="k1", rn="n1"), R("k3"), F("k2", "e2", "n2", rby="k3", rwith="k3", rk="k2", rn="n2"),
+                                                          F("k2", "e2", "n2", rby="k3", rwith="k3", rk="k2", rn="n2"), A("k3", "e2", "n2"), F("k2", "e2", "n2", rby="k3", rwith="k3", rk="k2", rn="n2")], sw=sw)
+# registration info sealed with the right wrapper that lacks the key, the nonce or both
+beh("f01_partial_info", ["C01"], [W("W1"), F("k1", "e1", "n1", ww="W1", wk="absent", wn="absent"), F("k2", "e1", "n2", ww="W1", wk="k2", wn="absent"), F("k2", "e1", "n2", ww="W1", wk="absent", wn="n2"),
+                                  F("k2", "e1", "n2", ww="W1", wk="k2", wn="n2"), F("k3", "e2", "n1", ww="W1", wk="absent", wn="absent", selfinfo=True)])
+# requests whose validity window began long ago (built early or backdated) presenting expired tokens
+beh("f06_backdated", ["C06", "C01"], [T("t1"), F("k1", "e1", "t1", "tiny", back=True), F("k1", "e1", "t1", "zero", back=True), T("t2", "s1"), AGE, F("k2", "e1", "t2", "mid", back=True), F("k2", "e1", "t1", "mid", back=True),
+                                      F("k2", "e1", "t2", "default", back=True), F("k3", "e1", "t1", "default", back=True)])
+# a node record is removed and its key authorised again: a rotation sealed with the key of the REMOVED record proves nothing
+for sw in (False, True):
+    beh("f10_gone_key" + ("w" if sw else ""), ["C10"], [A("k1", "e1", "n1", "s1"), F("k1", "e1", "n1"), ROT("k1", "k1", "gone", "k2", "e2", "n2"), R("k1"), ROT("k1", "k1", "gone", "k2", "e2", "n2"), A("k1", "e1", "n2", "s2"),
+                                                        ROT("k1", "k1", "gone", "k2", "e2", "n2"), F("k1", "e1", "n2"), ROT("k1", "k1", "gone", "k2", "e2", "n2"), ROT("k1", "k1", "cur", "k2", "e2", "n2")], sw=sw)
+# a rotation whose inner request carries a damaged activation token (not 32 bytes, not a well-formed token either)
+beh("f10_damaged_token", ["C10"], [A("k1", "e1", "n1", "s1"), ROT("k1", "k1", "cur", "k2", "e2", "tg"), ROT("k1", "k1", "cur", "k2", "e2", "tf"), T("t1"), ROT("k1", "k1", "cur", "k2", "e2", "t1"), ROT("k1", "k1", "cur", "k2", "e2", "n2")])
 # two handles on one directory; a listing made through one handle before the other handle writes
 beh("f01_two_handles", ["C01", "C06", "C10"], [F("k1", "e1", "n1"), F("k2", "e1", "n1"), A("k1", "e1", "n1"), F("k1", "e1", "n1"), T("t1"), F("k1", "e2", "t1"), F("k2", "e1", "t1"), R("k1"), F("k1", "e1", "n1"),
                                                  F("k2", "e1", "n1"), A("k3", "e1", "n1", "s1"), ROT("k3", "k3", "cur", "k1", "e2", "n2"), ROT("k3", "k3", "cur", "k1", "e2", "n2"), ROT("k3", "k3", "cur", "k1", "e2", "n2")], be="file2")
